@@ -327,6 +327,34 @@ let run_model (case : string) (impl : string) : string =
                 | Model.Rejected x -> reason_str x in
               let same = if test then " same=1" else "" in
               emit ((if test then "t " else "a ") ^ name ^ " " ^ verdict ^ same ^ " " ^ tail s acc (field_d iw "tip" "?"))
+            | "pkg" :: names ->
+              (* package submission: which transactions entered is the implementation's answer (A=, in the order they were
+                 added); each of them must pass the model's structural acceptance in that order; LimitMempoolSize runs once at the end *)
+              let iadded = list_of (field_d iw "A" "-") in
+              let n_added = List.length iadded in
+              List.iteri (fun k name ->
+                  if List.mem name names then begin
+                    let t = (try Hashtbl.find s.txs name with Not_found -> raise (Stop "BADSCRIPT")) in
+                    let st0 = s.ms in
+                    let last = (k = n_added - 1) in
+                    let (p1, r1) = Model.accept false None st0.Model.s_chain st0.Model.s_now st0.Model.s_pool t in
+                    (match r1 with
+                     | Model.Accepted repl ->
+                       List.iter (fun i -> acc.removed <- ("replaced", name_of s i) :: acc.removed) repl;
+                       acc.added <- acc.added @ [name];
+                       if last then begin
+                         let (st1, _) = Model.process_transaction false None evict st0 t in
+                         let p2 = Model.expire p1 (z_of_zt (Z.sub (zt_of_z st0.Model.s_now) (zt_of_z st0.Model.s_expiry))) in
+                         record s acc "expiry" p1 p2;
+                         record s acc "sizelimit" p2 st1.Model.s_pool;
+                         s.ms <- st1
+                       end else s.ms <- { st0 with Model.s_pool = p1 }
+                     | Model.Rejected _ -> ())
+                  end) iadded;
+              (* entries evicted by the final LimitMempoolSize never fire their "added" event *)
+              acc.added <- List.filter (fun n -> Model.in_pool s.ms.Model.s_pool (z (id_of s n)) || List.mem n iadded) acc.added;
+              let echoed = match iw with _ :: _ :: r -> List.filter (fun x -> not (starts_with "A=" x || starts_with "R=" x || starts_with "P=" x || starts_with "tip=" x)) r | _ -> [] in
+              emit ("k " ^ String.concat "," names ^ " " ^ String.concat " " echoed ^ " " ^ tail s acc (field_d iw "tip" "?"))
             | ("mine" | "fork" | "inval" | "recon") as o :: bname :: more ->
               (match o with
                | "mine" -> (match more with rel :: names -> (try def_block s bname s.tip rel names with Not_found | Failure _ -> raise (Stop "BADSCRIPT")) | [] -> raise (Stop "BADSCRIPT"))
@@ -499,7 +527,9 @@ let holds_line (mode : string) (case : string) (impl : string) : string =
            if mode <> "C23" && mode <> "C28" then begin
              (match Model.check_dump dump with Some v -> fail !n (violation_str v) | None -> ());
              if chk <> "ok" then fail !n ("mempool-check-" ^ chk);
-             if blk <> "ok" && blk <> "skip" then fail !n ("pool-not-valid-for-next-block:" ^ blk)
+             if blk <> "ok" && blk <> "skip" then fail !n ("pool-not-valid-for-next-block:" ^ blk);
+             (* cached LockPoints of every entry refer to a block of the active chain (the `@0` marker of the dump says otherwise) *)
+             (try ignore (Str.search_forward (Str.regexp_string "@0,") det 0); fail !n "stale-lockpoints" with Not_found -> ())
            end;
            (* C23: every template *)
            (match w, iw with
